@@ -8,8 +8,55 @@
 use std::fs;
 use verif_harness::{reserve::{e2e as reserve_e2e, gen_cases as reserve_gen}, rng::Rng};
 
+/// Finding F13 (directed reproduction; scenario by an independent code-reading sub-agent). Prague,
+/// reserve policy on. D is an EOA with balance 1_000_000 delegated (EIP-7702) to code that forwards its
+/// whole balance to Y; Y holds U256::MAX. tx0: X calls D with 1 wei - revm's `transfer_loaded` debits D,
+/// finds that the credit to Y overflows and returns OverflowPayment WITHOUT restoring D and without a
+/// journal entry; the frame revert has nothing to undo. The reserve scans journal entries, finds no
+/// debit of D, and lets tx0 stand; tx1 (D's own 21_000-gas transfer, fundable at block start) is then
+/// skipped for lack of funds. C13 promises it would not be.
+fn f13() -> bool {
+    use grevm::{DelegatedSafetyConfig, TxExecutionOutcome};
+    use revm::{context::{BlockEnv, CfgEnv, TxEnv}, primitives::{Address, B256, TxKind, U256, hardfork::SpecId}, state::Bytecode};
+    use std::sync::Arc;
+    use verif_harness::guard_common::{self as gc, MemDb};
+    let ad = |n: u64| Address::from_word(B256::from(U256::from(n)));
+    let (d, y, t, x) = (ad(900_000), ad(900_001), ad(910_000), ad(0x7001));
+    let miner = Address::new([0xc0; 20]);
+    let mut code = vec![0x5f, 0x5f, 0x5f, 0x5f, 0x47, 0x73];
+    code.extend_from_slice(y.as_slice());
+    code.extend_from_slice(&[0x62, 0x0f, 0x42, 0x40, 0xf1, 0x50, 0x00]);
+    let mut db = MemDb { inline_code: true, ..Default::default() };
+    db.put_code(t, U256::ZERO, 1, Bytecode::new_raw(code.into()));
+    db.put_code(d, U256::from(1_000_000u64), 0, Bytecode::new_eip7702(t));
+    db.put_eoa(y, U256::MAX, 0);
+    db.put_eoa(x, U256::from(10u64).pow(U256::from(18)), 0);
+    db.put_eoa(miner, U256::from(1), 0);
+    let txs = vec![
+        TxEnv { caller: x, kind: TxKind::Call(d), value: U256::from(1), gas_limit: 400_000, gas_price: 1, nonce: 0, chain_id: Some(1), ..Default::default() },
+        TxEnv { caller: d, kind: TxKind::Call(x), gas_limit: 21_000, gas_price: 1, nonce: 0, chain_id: Some(1), ..Default::default() },
+    ];
+    let cfg = CfgEnv::new_with_spec(SpecId::PRAGUE);
+    let block = BlockEnv { beneficiary: miner, number: U256::from(10), ..Default::default() };
+    let (dba, txa) = (Arc::new(db), Arc::new(txs));
+    let mut reproduced = false;
+    for workers in [0usize, 3] {
+        let (outs, _bundle) = gc::run_grevm(&dba, &cfg, &block, &txa, None, DelegatedSafetyConfig { forbid_delegated_create: false, reserve_delegated_balance: true }, workers).expect("grevm");
+        let t0 = format!("{:?}", outs[0]);
+        let t1 = format!("{:?}", outs[1]);
+        let stood = matches!(&outs[0], TxExecutionOutcome::Executed(r) if r.is_success());
+        let skipped = t1.contains("LackOfFundForMaxFee");
+        println!("F13 workers={workers} tx0_stands_as_success={} tx1_skipped_for_lack_of_funds={} tx0={} tx1={}", stood as u8, skipped as u8, &t0[..t0.len().min(120)], &t1[..t1.len().min(120)]);
+        reproduced |= stood && skipped;
+    }
+    reproduced
+}
+
 fn main() {
     let a: Vec<String> = std::env::args().collect();
+    if a[1] == "f13" {
+        std::process::exit(if f13() { 10 } else { 0 });
+    }
     let (kind, seed, count, outdir) =
         (a[1].as_str(), a[2].parse::<u64>().unwrap(), a[3].parse::<u64>().unwrap(), &a[4]);
     let mut rng = Rng::new(seed ^ 0xC13);
